@@ -41,8 +41,11 @@ type Case struct {
 	// Then: titles of named blobs pushed into the same store after the archive was
 	// unpacked (what an artifact with several layers does); ThenUnpack: the last of
 	// them is a small archive unpacked at that title
-	Then       []string `json:"then,omitempty"`
-	ThenUnpack bool     `json:"thenUnpack,omitempty"`
+	// DisableOverwrite: the store's option of that name is set (the statement's
+	// "default options" fixes AllowPathTraversalOnWrite only)
+	DisableOverwrite bool     `json:"disableOverwrite,omitempty"`
+	Then             []string `json:"then,omitempty"`
+	ThenUnpack       bool     `json:"thenUnpack,omitempty"`
 }
 
 var segs = []string{"a", "b", "d1", "d2", "..", ".", "s1", "s2", "victim.txt"}
@@ -72,6 +75,7 @@ var linkTargets = []string{"d1/d2/s2/../../out", "a", "b", "d1", "d1/d2", "..", 
 
 func genCase(t *rapid.T) Case {
 	c := Case{PrePop: rapid.IntRange(0, 2).Draw(t, "prePop"), Preserve: rapid.Bool().Draw(t, "preserve")}
+	c.DisableOverwrite = rapid.IntRange(0, 3).Draw(t, "disableOverwrite") == 1
 	switch rapid.IntRange(0, 14).Draw(t, "kind3") {
 	case 0:
 		// a harmless named blob first, then a manifest that lists the same content
@@ -96,7 +100,7 @@ func genCase(t *rapid.T) Case {
 		return rapid.SampledFrom([]int64{0o644, 0o600, 0o755, 0o777, 0o4755, 0o444}).Draw(t, label)
 	}
 	add := func(e TEntry) { c.Entries = append(c.Entries, e) }
-	tmpl := rapid.IntRange(0, 13).Draw(t, "template")
+	tmpl := rapid.IntRange(0, 14).Draw(t, "template")
 	pm := rapid.SampledFrom([]int{0, 0, 0, 1, 2}).Draw(t, "prefixMode")
 	switch tmpl {
 	case 0: // symlink, then write through it
@@ -162,6 +166,28 @@ func genCase(t *rapid.T) Case {
 			c.Then = append(c.Then, rapid.SampledFrom([]string{"name/y/victim.txt", "name/y/new.txt", "name/l", "name/x/victim.txt", "name/y/out/victim.txt", "name/y/wd-backup/n.txt", "name/x/../victim.txt", "name/a/ok.txt"}).Draw(t, "then13"))
 		}
 		c.ThenUnpack = rapid.Bool().Draw(t, "thenUnpack13")
+	case 14: // directory entries below a link that leads out, with 1-4 levels that do not exist yet
+		base := "name/s2" // pre-populated: name/s2 -> <out>
+		if rapid.Bool().Draw(t, "builtByArchive14") {
+			add(TEntry{Type: "sym", Name: "name/a", Link: "."})
+			add(TEntry{Type: "sym", Name: "name/x", Link: "a/.."})
+			add(TEntry{Type: "sym", Name: "name/y", Link: "x/.."})
+			base = "name/y"
+		} else {
+			c.PrePop = 2
+		}
+		k := rapid.IntRange(1, 4).Draw(t, "missingLevels")
+		p := base
+		for i := 0; i < k; i++ {
+			p += fmt.Sprintf("/new%d", i)
+		}
+		add(TEntry{Type: "dir", Name: p + "/", Mode: mode("m")})
+		if rapid.Bool().Draw(t, "fileBelow14") {
+			add(TEntry{Type: "reg", Name: p + "/f.txt", Mode: mode("m2"), Data: "below-missing-levels"})
+		}
+		if rapid.Bool().Draw(t, "then14") {
+			c.Then = append(c.Then, rapid.SampledFrom([]string{base + "/new.txt", base + "/sub/new.txt", base + "/victim.txt", "name/dang"}).Draw(t, "thenTitle14"))
+		}
 	case 5: // benign tree
 		add(TEntry{Type: "dir", Name: "name/d1/", Mode: 0o755})
 		add(TEntry{Type: "reg", Name: "name/d1/a", Mode: mode("m"), Data: "hello"})
@@ -359,6 +385,7 @@ func runCase(c Case) (res vt.Result, fail *vt.Fail) {
 		return res, vt.Failf("harness/file-new", "%v", err)
 	}
 	store.PreservePermissions = c.Preserve
+	store.DisableOverwrite = c.DisableOverwrite
 	var content []byte
 	desc := ocispec.Descriptor{MediaType: "application/octet-stream"}
 	title := s.subst(c.Title)
